@@ -278,6 +278,23 @@ func findBindingSupportedStep(cx *Ctx, ch *Chain) *Step {
 		if lf == nil || s.Kind != "WithLogicStep" {
 			continue
 		}
+		// the decision may sit in a pure function of the binding the step calls and hands the verdict of
+		// (`err = checkResponseBindingSupported(response.ProtocolBinding); return err`)
+		bindingParam := ""
+		if cs := callsIn(lf); len(cs) == 1 {
+			if call, isCall := cs[0].(*ssa.Call); isCall {
+				if g := calleeOf(call); g != nil && g.Blocks != nil && g.Pkg == lf.Pkg && g.Parent() == nil {
+					if e, has, _ := errResult(call); has && e != nil && fx.isReturned(e) {
+						for i, a := range call.Call.Args {
+							if strings.HasSuffix(fx.path(a), ".ProtocolBinding") && i < len(g.Params) {
+								bindingParam = fx.path(g.Params[i])
+								lf = g
+							}
+						}
+					}
+				}
+			}
+		}
 		paths, ok := enumPaths(lf, nil, 64)
 		if !ok || len(paths) == 0 {
 			continue
@@ -303,9 +320,9 @@ func findBindingSupportedStep(cx *Ctx, ch *Chain) *Step {
 				}
 				var cst string
 				switch {
-				case strings.HasPrefix(a.A, "const:") && strings.HasSuffix(a.B, ".ProtocolBinding"):
+				case strings.HasPrefix(a.A, "const:") && (strings.HasSuffix(a.B, ".ProtocolBinding") || bindingParam != "" && a.B == bindingParam):
 					cst = a.A
-				case strings.HasPrefix(a.B, "const:") && strings.HasSuffix(a.A, ".ProtocolBinding"):
+				case strings.HasPrefix(a.B, "const:") && (strings.HasSuffix(a.A, ".ProtocolBinding") || bindingParam != "" && a.A == bindingParam):
 					cst = a.B
 				default:
 					other = true
